@@ -756,4 +756,34 @@ class SemanticOddities(object):
             vs.append(('%s|status-and-hand-over-disagree' % sig, '%r written %r' % (good, sorted(written))))
         return repr(sorted((k, str(v)) for k, v in res.items())), vs, 1
 
-FAMILIES = [SeveralPerFile(), FileNamesVsModuleNames(), NoDeviation(), OneDeviation(), TwoDeviations(), FailureAndRepair(), FilesOnDisk(), SemanticOddities()]
+class _OneFileTwoNames(object):
+    """C08's real-directory worlds where two names of one call resolve (fuzzy -MIB matching) to one file - sound, or holding
+    nothing but a comment: every requested name has a status of its own or its file's modules have one.  (C08 imports this
+    module, so its family is looked up when first used.)"""
+    name = 'one-file-reached-under-two-names'
+    case_timeout = 30
+    describe = ('a REAL FileReader directory (fuzzy -MIB matching on): two names of one call - imported or requested, either order - '
+                'resolve to ONE file, sound or holding nothing but a comment: the file is read once, every name is accounted for')
+    _fam = None
+
+    def fam(self):
+        if self._fam is None:
+            from mc.checks import C08
+
+            class OneFileTwoNames(C08.OneFileTwoNames):
+                prefix = 'C07'
+                ignore = True
+            _OneFileTwoNames._fam = OneFileTwoNames()
+        return self._fam
+
+    def blocks(self, tier):
+        return self.fam().blocks(tier)
+
+    def cases(self, block, tier):
+        return self.fam().cases(block, tier)
+
+    def run_case(self, case):
+        return self.fam().run_case(case)
+
+
+FAMILIES = [SeveralPerFile(), FileNamesVsModuleNames(), NoDeviation(), OneDeviation(), TwoDeviations(), FailureAndRepair(), FilesOnDisk(), SemanticOddities(), _OneFileTwoNames()]
